@@ -12,6 +12,13 @@ positive but **not** always at least `MIN_COST` — `enforce_strictly_positive` 
 `≤ 0`, a positive total below the floor is charged as it is (`charged_below_floor_witness`).  The
 property text only asks for strict positivity, which is what is proved.
 
+Second part (§9–§16, model `Compass/Model/CostIO.lean`): the order of `Cost` (`OrderedFloat`,
+`ReverseCost`), `agg_iter` with `Err` items, `forward_traversal` / `reverse_traversal` with every error
+arm, `serialize_cost` / `serialize_cost_info`, the serde form of the rate enums, `CostModelBuilder` /
+`CostModelService`, `NetworkCostRateBuilder`.  Findings there: two repaired (`fixed:` 4844235, dac0f5c),
+four recorded (`known:` keys `cost_rate_serde/*`, `serialize_cost*/feature-named-*`), each with a
+`_partial` theorem and a `_counterexample`.
+
 Notation (`Proofs/Cost.lean`): `m.wt i`, `m.vr i`, `m.nr i` are the weight, vehicle rate and network
 rate of state index `i`; `stateDelta prev next i = next[i] − prev[i]`; `m.InRangeV prev next` says
 every index of `m.indices` lies inside `prev`, `next`, `weights`, `vehicleRates`; `m.InRange` adds
@@ -19,6 +26,9 @@ every index of `m.indices` lies inside `prev`, `next`, `weights`, `vehicleRates`
 compute just before `Cost::enforce_strictly_positive`.
 -/
 import Compass.Proofs.Cost
+import Compass.Proofs.Graph
+import Compass.Model.CostIO
+import Mathlib.Data.List.Perm.Subperm
 
 namespace Compass
 namespace C07
@@ -716,6 +726,782 @@ example : exMul.accessCost 1 3 [1, 7] [2, 0] = some ((2 * 2) * (-7 * -1) + (4 * 
 example : exMul.traversalCost 3 [1, 0] [2, 7] = some minCost := by decide +kernel
 -- a zero weight annihilates the product
 example : ({ exSum with agg := .mul }).traversalCost 3 [1, 0] [2, 7] = some minCost := by decide +kernel
+
+/-! ## Second part: the rest of the anchor files (model `Compass/Model/CostIO.lean`) -/
+
+section
+variable {α : Type} [Field α] [LinearOrder α] [IsStrictOrderedRing α] [Lit α] [LawfulLit α]
+
+/-! ### 9. The order of `Cost` (`unit/cost.rs`) -/
+
+/-- a linearly ordered field has no NaN -/
+theorem cost_is_nan_false (x : α) : costIsNaN x = false := by
+  simp [costIsNaN]
+
+/-- over a linear order `OrderedFloat::cmp` is the order itself -/
+theorem cost_cmp_spec (a b : α) :
+    (costCmp a b = .lt ↔ a < b) ∧ (costCmp a b = .eq ↔ a = b) ∧ (costCmp a b = .gt ↔ b < a) := by
+  unfold costCmp
+  simp only [cost_is_nan_false, Bool.false_or, Bool.not_eq_true', decide_eq_false_iff_not, not_le]
+  rcases lt_trichotomy a b with h | h | h
+  · simp [h, ne_of_lt h, not_lt.mpr (le_of_lt h)]
+  · subst h; simp
+  · simp [h, not_lt.mpr (le_of_lt h), ne_of_gt h]
+
+/-- `ReverseCost` reverses it (the frontier is a max-heap over `ReverseCost`: the least cost pops first) -/
+theorem reverse_cost_cmp_spec (a b : α) :
+    (reverseCostCmp a b = .lt ↔ b < a) ∧ (reverseCostCmp a b = .eq ↔ a = b) ∧ (reverseCostCmp a b = .gt ↔ a < b) := by
+  unfold reverseCostCmp
+  obtain ⟨h1, h2, h3⟩ := cost_cmp_spec b a
+  exact ⟨h1, by rw [h2]; exact eq_comm, h3⟩
+
+/-- `Ord::max` / `Ord::min` on costs -/
+theorem cost_max_min (a b : α) : costMax a b = max a b ∧ costMin a b = min a b := by
+  unfold costMax costMin
+  by_cases h : b < a
+  · have := (cost_cmp_spec a b).2.2.mpr h
+    simp [this, max_eq_left (le_of_lt h), min_eq_right (le_of_lt h)]
+  · have : costCmp a b ≠ .gt := fun hh => h ((cost_cmp_spec a b).2.2.mp hh)
+    simp [this, max_eq_right (not_lt.mp h), min_eq_left (not_lt.mp h)]
+
+/-- the floor and the clip written with the derived comparison of `Cost` (what the code evaluates)
+are the functions of §1 -/
+theorem enforce_cmp_eq (c : α) :
+    enforceStrictlyPositiveCmp c = enforceStrictlyPositive c ∧ enforceNonNegativeCmp c = enforceNonNegative c := by
+  unfold enforceStrictlyPositiveCmp enforceNonNegativeCmp costLe costLt enforceStrictlyPositive enforceNonNegative
+  simp only [zero_eq]
+  obtain ⟨h1, _, h3⟩ := cost_cmp_spec c (0 : α)
+  constructor
+  · by_cases h : c ≤ (0 : α)
+    · have : costCmp c (0 : α) ≠ .gt := fun hh => absurd (h3.mp hh) (not_lt.mpr h)
+      simp [h, this]
+    · have : costCmp c (0 : α) = .gt := h3.mpr (not_le.mp h)
+      simp [h, this]
+  · by_cases h : c < (0 : α)
+    · simp [h, h1.mpr h]
+    · have : costCmp c (0 : α) ≠ .lt := fun hh => h (h1.mp hh)
+      simp [h, this]
+
+/-! ### 10. `CostAggregation::agg_iter` / `agg` called directly -/
+
+/-- `agg_iter` fails exactly when some item is an `Err`, and then `firstNone` names the first one:
+the item at that position is an `Err` and every earlier one is a cost -/
+theorem agg_iter_error (a : CostAggregation) (items : List (Option α)) :
+    (a.aggIter items = none ↔ ∃ x ∈ items, x = none) ∧
+    (∀ k, firstNone items = some k → items[k]? = some none ∧ ∀ j, j < k → ∃ c, items[j]? = some (some c)) ∧
+    (firstNone items = none ↔ ∀ x ∈ items, x ≠ none) := by
+  refine ⟨?_, ?_, ?_⟩
+  · unfold CostAggregation.aggIter
+    induction items with
+    | nil => simp [allSome]
+    | cons x r ih =>
+      cases x with
+      | none => simp [allSome]
+      | some c =>
+        cases hr : allSome r with
+        | none => simp [allSome, hr] at ih ⊢; exact ih
+        | some l => simp [allSome, hr] at ih ⊢; exact ih
+  · induction items with
+    | nil => intro k h; simp [firstNone] at h
+    | cons x r ih =>
+      intro k h
+      cases x with
+      | none =>
+        simp only [firstNone, Option.some.injEq] at h
+        subst h
+        exact ⟨by simp, fun j hj => absurd hj (Nat.not_lt_zero j)⟩
+      | some c =>
+        simp only [firstNone, Option.map_eq_some_iff] at h
+        obtain ⟨k', hk', rfl⟩ := h
+        obtain ⟨h1, h2⟩ := ih k' hk'
+        refine ⟨by simpa using h1, ?_⟩
+        intro j hj
+        cases j with
+        | zero => exact ⟨c, by simp⟩
+        | succ j' =>
+          obtain ⟨c', hc'⟩ := h2 j' (by omega)
+          exact ⟨c', by simpa using hc'⟩
+  · induction items with
+    | nil => simp [firstNone]
+    | cons x r ih =>
+      cases x with
+      | none => simp [firstNone]
+      | some c => simp [firstNone, ih]
+
+/-- without `Err` item the result is the aggregate: the sum in order (`0` for no component), or the
+product in order — `0`, not `1`, for no component; a single component is returned unchanged -/
+theorem agg_iter_value (a : CostAggregation) (cs : List α) :
+    a.aggIter (cs.map some) = some (a.agg cs) ∧
+    CostAggregation.sum.agg cs = cs.sum ∧ CostAggregation.mul.agg cs = (if cs = [] then 0 else cs.prod) ∧
+    (∀ c : α, CostAggregation.sum.agg [c] = c ∧ CostAggregation.mul.agg [c] = c) := by
+  refine ⟨?_, agg_sum cs, agg_mul cs, fun c => ⟨by simp [agg_sum], by simp [agg_mul]⟩⟩
+  have := aggIter_map_some a cs (fun c => some c) id (fun _ _ => rfl)
+  simpa using this
+
+/-! ### 11. `EdgeTraversal::forward_traversal` / `reverse_traversal`, every arm -/
+
+/-- C07 on the real constructors: whenever either returns a record, its `total_cost()` is what
+`traversal_cost` charged for the traversed edge on the state the traversal model left — strictly
+positive — and the access share is non-negative; whatever graph, models and neighbouring edge -/
+theorem access_step_nonneg (m : CostModel α) (env : ETEnv α) (forward : Bool) (trav : Nat)
+    (nbr : Option Nat) (prev : List α) (acc : α)
+    (h : m.accessStep env forward trav nbr prev = .ok acc) : 0 ≤ acc := by
+  unfold CostModel.accessStep at h
+  cases nbr with
+  | none =>
+    simp only [Except.ok.injEq] at h
+    rw [← h]; simp [edgeAccessShare]
+  | some k =>
+    simp only at h
+    cases he : env.edge k with
+    | none => simp [he] at h
+    | some sd =>
+      simp only [he] at h
+      by_cases hv : env.vertex (if forward = true then sd.1 else sd.2) = false
+      · simp [hv] at h
+      · rw [if_neg hv] at h
+        cases ha : env.access with
+        | none => simp [ha] at h
+        | some accessed =>
+          simp only [ha] at h
+          cases hc : m.accessCost (if forward = true then k else trav) (if forward = true then trav else k) prev accessed with
+          | none => simp [hc] at h
+          | some a =>
+            simp only [hc, Except.ok.injEq] at h
+            have := access_cost_pos m _ _ prev accessed a hc
+            rw [← h]; simp only [edgeAccessShare, zero_eq]; linarith
+
+theorem edge_traversal_total_pos (m : CostModel α) (env : ETEnv α) (forward : Bool) (trav : Nat)
+    (nbr : Option Nat) (prev : List α) (r : α × α)
+    (h : m.edgeTraversalE env forward trav nbr prev = .ok r) :
+    ∃ next, env.traverse = some next ∧ m.traversalCost trav prev next = some (edgeRecordTotal r)
+      ∧ 0 < edgeRecordTotal r ∧ 0 ≤ r.1 := by
+  unfold CostModel.edgeTraversalE at h
+  by_cases hg : env.tripletOk trav = false
+  · simp [hg] at h
+  · rw [if_neg hg] at h
+    cases hs : m.accessStep env forward trav nbr prev with
+    | error e => simp [hs] at h
+    | ok acc =>
+      simp only [hs] at h
+      cases htr : env.traverse with
+      | none => simp [htr] at h
+      | some next =>
+        cases ht : m.traversalCost trav prev next with
+        | none => simp [htr, ht] at h
+        | some t =>
+          simp only [htr, ht, Except.ok.injEq] at h
+          have hp := traversal_cost_pos m trav prev next t ht
+          have hacc0 := access_step_nonneg m env forward trav nbr prev acc hs
+          subst h
+          refine ⟨next, rfl, ?_, ?_, hacc0⟩
+          · rw [ht]; simp only [edgeRecordTotal]; congr 1; ring
+          · simp only [edgeRecordTotal]; linarith
+
+/-- the error arms, in the order the code takes them -/
+theorem edge_traversal_errors (m : CostModel α) (env : ETEnv α) (forward : Bool) (trav : Nat)
+    (nbr : Option Nat) (prev : List α) :
+    -- an unknown traversed edge, or one whose end vertex is not in the graph: network error, first of all
+    (env.tripletOk trav = false → m.edgeTraversalE env forward trav nbr prev = .error .network) ∧
+    -- an unknown neighbouring edge: network error
+    (∀ k, env.tripletOk trav = true → nbr = some k → env.edge k = none →
+      m.edgeTraversalE env forward trav nbr prev = .error .network) ∧
+    -- a failing access model (graph lookups fine): access error
+    (∀ k s d, env.tripletOk trav = true → nbr = some k → env.edge k = some (s, d) →
+      env.vertex (if forward then s else d) = true → env.access = none →
+      m.edgeTraversalE env forward trav nbr prev = .error .access) ∧
+    -- without neighbouring edge a failing traversal model: traversal error
+    (env.tripletOk trav = true → nbr = none → env.traverse = none →
+      m.edgeTraversalE env forward trav nbr prev = .error .traversal) ∧
+    -- without neighbouring edge, a traversal model that leaves a state the cost model rejects: cost error
+    (∀ next, env.tripletOk trav = true → nbr = none → env.traverse = some next →
+      m.traversalCost trav prev next = none →
+      m.edgeTraversalE env forward trav nbr prev = .error .cost) := by
+  refine ⟨?_, ?_, ?_, ?_, ?_⟩
+  · intro h; simp [CostModel.edgeTraversalE, h]
+  · intro k h hn he; subst hn; simp [CostModel.edgeTraversalE, CostModel.accessStep, h, he]
+  · intro k s d h hn he hv ha; subst hn; simp [CostModel.edgeTraversalE, CostModel.accessStep, h, he, hv, ha]
+  · intro h hn ht; subst hn; simp [CostModel.edgeTraversalE, CostModel.accessStep, h, ht]
+  · intro next h hn ht hc; subst hn; simp [CostModel.edgeTraversalE, CostModel.accessStep, h, ht, hc]
+
+/-! ### 12. `serialize_cost` / `serialize_cost_info` -/
+
+theorem foldl_kvInsert_distinct {β : Type} (l acc : List (String × β)) (hl : (l.map Prod.fst).Nodup)
+    (hd : ∀ p ∈ l, ∀ q ∈ acc, q.1 ≠ p.1) :
+    l.foldl (fun acc p => kvInsert acc p.1 p.2) acc = acc ++ l := by
+  induction l generalizing acc with
+  | nil => simp
+  | cons p l ih =>
+    simp only [List.map_cons, List.nodup_cons] at hl
+    have hno : acc.any (fun q => q.1 == p.1) = false := by
+      simp only [List.any_eq_false, beq_iff_eq]
+      intro q hq; exact hd p (by simp) q hq
+    have e : kvInsert acc p.1 p.2 = acc ++ [p] := by simp [kvInsert, hno]
+    simp only [List.foldl_cons, e]
+    rw [ih (acc ++ [p]) hl.2]
+    · simp
+    · intro p' hp' q hq
+      rcases List.mem_append.mp hq with hq | hq
+      · exact hd p' (by simp [hp']) q hq
+      · simp only [List.mem_singleton] at hq; subst hq
+        intro heq
+        exact hl.1 (List.mem_map.mpr ⟨p', hp', heq.symm⟩)
+
+/-- `serialize_cost`, PARTIAL.  Full statement: the result holds one entry per state feature — the
+feature's name with the rated value of its state variable — and `total_cost`, their sum in feature
+order.  Proved when no feature is named `total_cost` (and the names are distinct, one per index, every
+index inside the state and the vehicle rates); a feature of that name loses its entry
+(`serialize_cost_total_cost_counterexample`). -/
+theorem serialize_cost_partial (m : CostModel α) (names : List String) (state : List α)
+    (hn : names.Nodup) (ht : "total_cost" ∉ names) (hlen : names.length = m.indices.length)
+    (hr : ∀ i ∈ m.indices, i < state.length ∧ i < m.vehicleRates.length) :
+    m.serializeCost names state
+      = some ((names.zip m.indices).map (fun p => (p.1, (m.vr p.2).mapValue (state.getD p.2 0)))
+          ++ [("total_cost", (m.indices.map fun i => (m.vr i).mapValue (state.getD i 0)).sum)]) := by
+  have hfc : m.featureCosts names state
+      = some ((names.zip m.indices).map (fun p => (p.1, (m.vr p.2).mapValue (state.getD p.2 0)))) := by
+    unfold CostModel.featureCosts
+    apply allSome_map_some
+    intro p hp
+    have hi := hr p.2 (List.of_mem_zip hp).2
+    obtain ⟨name, i⟩ := p
+    simp only at hi ⊢
+    rw [getElem?_eq_some_getD state i 0 hi.1, getElem?_eq_some_getD m.vehicleRates i .zero hi.2]
+    rfl
+  have hkeys : ((names.zip m.indices).map (fun p => (p.1, (m.vr p.2).mapValue (state.getD p.2 0)))).map Prod.fst
+      = names := by
+    rw [List.map_map]
+    have : ((fun p : String × α => p.1) ∘ fun p : String × Nat => (p.1, (m.vr p.2).mapValue (state.getD p.2 0)))
+        = Prod.fst := rfl
+    rw [this]
+    exact List.map_fst_zip (le_of_eq hlen)
+  have hvals : ((names.zip m.indices).map (fun p => (p.1, (m.vr p.2).mapValue (state.getD p.2 0)))).map Prod.snd
+      = m.indices.map fun i => (m.vr i).mapValue (state.getD i 0) := by
+    rw [List.map_map]
+    have : ((fun p : String × α => p.2) ∘ fun p : String × Nat => (p.1, (m.vr p.2).mapValue (state.getD p.2 0)))
+        = (fun i => (m.vr i).mapValue (state.getD i 0)) ∘ Prod.snd := rfl
+    rw [this, ← List.map_map, List.map_snd_zip (le_of_eq hlen.symm)]
+  unfold CostModel.serializeCost
+  rw [hfc]
+  simp only
+  rw [foldl_kvInsert_distinct _ [] (by rw [hkeys]; exact hn) (by simp), List.nil_append, hvals,
+    zero_eq, ← List.sum_eq_foldl]
+  have hno : ((names.zip m.indices).map (fun p => (p.1, (m.vr p.2).mapValue (state.getD p.2 0)))).any
+      (fun q => q.1 == "total_cost") = false := by
+    simp only [List.any_eq_false, beq_iff_eq]
+    intro q hq heq
+    apply ht
+    rw [← hkeys]
+    exact List.mem_map.mpr ⟨q, hq, heq⟩
+  congr 1
+  unfold kvInsert
+  rw [hno]
+  simp only [Bool.false_eq_true, if_false]
+
+/-- a state vector that does not reach a feature's index: `serialize_cost` fails
+(`StateIndexOutOfBounds`) -/
+theorem serialize_cost_short_state (m : CostModel α) (names : List String) (state : List α)
+    (p : String × Nat) (hp : p ∈ names.zip m.indices) (hs : state.length ≤ p.2) :
+    m.serializeCost names state = none := by
+  have : m.featureCosts names state = none := by
+    unfold CostModel.featureCosts
+    apply allSome_map_none
+    refine ⟨p, hp, ?_⟩
+    simp [List.getElem?_eq_none hs]
+  simp [CostModel.serializeCost, this]
+
+theorem find_map_replace (kvs : List (String × Json)) (k : String) (v : Json)
+    (h : kvs.any (fun p => p.1 == k) = true) :
+    (kvs.map (fun p => if p.1 == k then (k, v) else p)).find? (fun p => p.1 == k) = some (k, v) := by
+  induction kvs with
+  | nil => simp at h
+  | cons q r ih =>
+    rw [List.map_cons]
+    by_cases hq : (q.1 == k) = true
+    · rw [List.find?_cons_of_pos]
+      · simp [hq]
+      · simp [hq]
+    · have hr : r.any (fun p => p.1 == k) = true := by
+        simp only [List.any_cons, Bool.or_eq_true] at h
+        rcases h with h | h
+        · exact absurd h hq
+        · exact h
+      rw [List.find?_cons_of_neg]
+      · exact ih hr
+      · simp [hq]
+
+theorem lookup_insertKv (kvs : List (String × Json)) (k : String) (v : Json) :
+    Json.lookup (Json.insertKv kvs k v) k = some v := by
+  unfold Json.insertKv Json.lookup
+  by_cases h : kvs.any (fun p => p.1 == k) = true
+  · rw [if_pos h, find_map_replace kvs k v h]
+  · rw [if_neg h]
+    have hn : kvs.find? (fun p => p.1 == k) = none := by
+      rw [List.find?_eq_none]
+      intro p hp hpk
+      apply h
+      exact List.any_eq_true.mpr ⟨p, hp, hpk⟩
+    simp [List.find?_append, hn]
+
+/-- `serialize_cost_info`, PARTIAL.  Full statement: for every cost model `CostModel::new` accepts the
+description of the model is returned.  Proved when every rate has a serde form (no `Combined` rate, no
+edge-pair lookup with entries); then the result is an object that reports the aggregation under
+`cost_aggregation`.  Otherwise it fails (`serialize_cost_info_counterexample`; a panic before 4844235). -/
+theorem serialize_cost_info_partial (m : CostModel α) (enc : α → Json) (names : List String)
+    (hr : ∀ i ∈ m.indices, ∃ w v n, m.weights[i]? = some w ∧ m.vehicleRates[i]? = some v
+      ∧ m.networkRates[i]? = some n ∧ (v.toJson? enc).isSome ∧ (n.toJson? enc).isSome) :
+    ∃ kvs, m.serializeCostInfo enc names = some (.obj kvs)
+      ∧ Json.lookup kvs "cost_aggregation" = some m.agg.toJson := by
+  have key : ∀ (l : List (String × Nat)) (acc : List (String × Json)), (∀ p ∈ l, p.2 ∈ m.indices) →
+      ∃ kvs, m.costInfoEntries enc l acc = some kvs := by
+    intro l
+    induction l with
+    | nil => intro acc _; exact ⟨acc, rfl⟩
+    | cons p l ih =>
+      intro acc hp
+      obtain ⟨w, v, n, hw, hv, hn, hvj, hnj⟩ := hr p.2 (hp p (by simp))
+      obtain ⟨vj, hvj'⟩ := Option.isSome_iff_exists.mp hvj
+      obtain ⟨nj, hnj'⟩ := Option.isSome_iff_exists.mp hnj
+      obtain ⟨name, i⟩ := p
+      simp only [CostModel.costInfoEntries, hw, hv, hn, hvj', hnj']
+      exact ih _ (fun q hq => hp q (by simp [hq]))
+  obtain ⟨kvs, hk⟩ := key (names.zip m.indices) [] (fun p hp => (List.of_mem_zip hp).2)
+  refine ⟨Json.insertKv kvs "cost_aggregation" m.agg.toJson, ?_, lookup_insertKv _ _ _⟩
+  simp [CostModel.serializeCostInfo, hk]
+
+/-! ### 13. The serde form of the rates and of the aggregation -/
+
+/-- whatever serde writes for a vehicle rate reads back as that rate (`num` decodes what `enc` writes).
+`Combined` is not written at all (`vehicle_rate_combined_not_written`). -/
+theorem vehicle_rate_serde_roundtrip (num : Json → Option α) (enc : α → Json) (hne : ∀ x, num (enc x) = some x)
+    (r : VehicleCostRate α) (j : Json) (h : r.toJson? enc = some j) : parseVehicleRate num j = some r := by
+  cases r with
+  | zero => simp only [VehicleCostRate.toJson?, Option.some.injEq] at h; subst h; simp [parseVehicleRate, Json.lookup]
+  | raw => simp only [VehicleCostRate.toJson?, Option.some.injEq] at h; subst h; simp [parseVehicleRate, Json.lookup]
+  | factor f =>
+    simp only [VehicleCostRate.toJson?, Option.some.injEq] at h; subst h
+    simp [parseVehicleRate, Json.lookup, hne]
+  | offset o =>
+    simp only [VehicleCostRate.toJson?, Option.some.injEq] at h; subst h
+    simp [parseVehicleRate, Json.lookup, hne]
+  | combined rs => simp [VehicleCostRate.toJson?] at h
+
+/-- the known limits of the serde form (finding `cost_rate_serde/not-serializable`): a `Combined` rate
+of either kind, and an edge-pair lookup with entries, cannot be written -/
+theorem vehicle_rate_combined_not_written (enc : α → Json) (rs : List (VehicleCostRate α))
+    (ns : List (NetworkCostRate α)) (p : (Nat × Nat) × α) (t : List ((Nat × Nat) × α)) :
+    (VehicleCostRate.combined rs).toJson? enc = none ∧ (NetworkCostRate.combined ns).toJson? enc = none
+      ∧ (NetworkCostRate.edgeEdgeLookup (p :: t)).toJson? enc = none := by
+  simp [VehicleCostRate.toJson?, NetworkCostRate.toJson?]
+
+/-- a `Combined` vehicle rate is read from the sequence form `["combined", r₁, r₂, …]` only: the
+object form is rejected whatever else it holds -/
+theorem vehicle_rate_combined_forms (num : Json → Option α) (js : List Json) (kvs : List (String × Json))
+    (hk : Json.lookup kvs "type" = some (.str "combined")) :
+    parseVehicleRate num (.arr (.str "combined" :: js)) = (parseVehicleRateList num js).map .combined
+      ∧ parseVehicleRate num (.obj kvs) = none := by
+  constructor
+  · simp [parseVehicleRate]
+  · simp [parseVehicleRate, hk]
+
+/-- anything that is neither an object nor a sequence is rejected, as is a missing, non-string or
+unknown tag (an error, never a panic) -/
+theorem rate_malformed_rejected (num : Json → Option α) (b : Bool) (l : String) (n : Nat) (s : String)
+    (kvs : List (String × Json)) (hk : Json.lookup kvs "type" = none) :
+    parseVehicleRate num .null = none ∧ parseVehicleRate num (.bool b) = none
+      ∧ parseVehicleRate num (.num l n) = none ∧ parseVehicleRate num (.str s) = none
+      ∧ parseVehicleRate num (.arr []) = none ∧ parseVehicleRate num (.obj kvs) = none
+      ∧ parseNetworkRate (α := α) .null = none ∧ parseNetworkRate (α := α) (.str s) = none
+      ∧ parseNetworkRate (α := α) (.arr []) = none ∧ parseNetworkRate (α := α) (.obj kvs) = none := by
+  simp [parseVehicleRate, parseNetworkRate, hk]
+
+/-- NETWORK RATES, PARTIAL.  Full statement: whatever serde writes for a network rate reads back as
+that rate.  Proved for `Zero` and for the two lookups without entries; an edge lookup with entries is
+written and then rejected (`network_rate_serde_roundtrip_counterexample`). -/
+theorem network_rate_serde_roundtrip_partial (enc : α → Json) :
+    parseNetworkRate (α := α) ((NetworkCostRate.zero : NetworkCostRate α).toJson? enc |>.getD .null) = some .zero
+      ∧ parseNetworkRate (α := α) ((NetworkCostRate.edgeLookup ([] : List (Nat × α))).toJson? enc |>.getD .null)
+          = some (.edgeLookup [])
+      ∧ parseNetworkRate (α := α) ((NetworkCostRate.edgeEdgeLookup ([] : List ((Nat × Nat) × α))).toJson? enc |>.getD .null)
+          = some (.edgeEdgeLookup []) := by
+  simp [NetworkCostRate.toJson?, parseNetworkRate, Json.lookup, parseEmptyLookup]
+
+/-- finding `cost_rate_serde/lookup-not-deserializable`: an edge lookup with an entry is written as
+`{"type":"edge_lookup","lookup":{"<id>":cost,…}}` and that text is rejected on reading — per-edge
+surcharges cannot be configured -/
+theorem network_rate_serde_roundtrip_counterexample (enc : α → Json) (p : Nat × α) (t : List (Nat × α)) :
+    ∃ j, (NetworkCostRate.edgeLookup (p :: t)).toJson? enc = some j ∧ parseNetworkRate (α := α) j = none := by
+  refine ⟨_, rfl, ?_⟩
+  simp [parseNetworkRate, Json.lookup, parseEmptyLookup]
+
+/-- the aggregation round trip -/
+theorem aggregation_serde_roundtrip (a : CostAggregation) : parseAggregation a.toJson = some a := by
+  cases a <;> rfl
+
+/-! ### 14. `CostModelBuilder::build` and `CostModelService::build` -/
+
+/-- a configuration without any of the five keys (or that is no object): no rates, no weights, sum
+aggregation, unknown weights ignored -/
+theorem build_cost_service_defaults (num : Json → Option α) (config : Json)
+    (h : ∀ k, config.get? k = none) :
+    buildCostService num config
+      = some (CostService.mk [] [] [] CostAggregation.sum true) := by
+  simp [buildCostService, optField, h]
+
+/-- a section that is present and does not deserialise fails the build (shown for `weights`; the
+other four keys are read the same way) -/
+theorem build_cost_service_malformed (num : Json → Option α) (config v : Json)
+    (hw : config.get? "weights" = some v) (hbad : parseMap num v = none) :
+    buildCostService num config = none := by
+  unfold buildCostService
+  have : optField (parseMap num) config "weights" = none := by simp [optField, hw, hbad]
+  rw [this]
+  split <;> simp_all
+
+/-- with the ignore flag on (the default) unknown weights never fail the query -/
+theorem service_build_ignore (s : CostService α) (num : Json → Option α) (query : Json) (names : List String)
+    (hi : s.ignoreUnknownWeights = true) : s.build num query names ≠ .error .unknownWeights := by
+  unfold CostService.build
+  cases optField (parseMap num) query "weights" with
+  | none => simp
+  | some wq =>
+    simp only [hi]
+    cases optField (parseMap (parseVehicleRate num)) query "vehicle_rates" with
+    | none => simp
+    | some vq =>
+      cases optField parseAggregation query "cost_aggregation" with
+      | none => simp
+      | some aq =>
+        simp only
+        split
+        · simp_all
+        · split <;> simp
+
+/-- with the ignore flag off, a weight for a name that is no state feature fails the query
+(weights from the query when it has any, else the configured ones; names distinct) -/
+theorem service_build_unknown_weights (s : CostService α) (num : Json → Option α) (query : Json)
+    (names : List String) (wq : Option (List (String × α)))
+    (hq : optField (parseMap num) query "weights" = some wq)
+    (hi : s.ignoreUnknownWeights = false) (hn : names.Nodup)
+    (u : String) (hu : u ∈ (wq.getD s.weights).map Prod.fst) (hun : u ∉ names) :
+    s.build num query names = .error .unknownWeights := by
+  unfold CostService.build
+  rw [hq]
+  simp only [hi]
+  have hlt : (names.filter fun n => (wq.getD s.weights).any fun p => p.1 == n).length
+      < (wq.getD s.weights).length := by
+    set ws := wq.getD s.weights with hws
+    have hsub : (names.filter fun n => ws.any fun p => p.1 == n) ⊆ (ws.map Prod.fst).erase u := by
+      intro n hnm
+      rw [List.mem_filter] at hnm
+      obtain ⟨hnn, hany⟩ := hnm
+      rw [List.any_eq_true] at hany
+      obtain ⟨p, hp, hpe⟩ := hany
+      have hne : n ≠ u := fun h => hun (h ▸ hnn)
+      have : n ∈ ws.map Prod.fst := List.mem_map.mpr ⟨p, hp, by simpa using hpe⟩
+      exact (List.mem_erase_of_ne hne).mpr this
+    have hle := (List.subperm_of_subset (hn.filter _) hsub).length_le
+    rw [List.length_erase_of_mem hu, List.length_map] at hle
+    have hpos : 0 < ws.length := by
+      rw [← List.length_map (f := Prod.fst)]; exact List.length_pos_of_mem hu
+    omega
+  have hne : (wq.getD s.weights).length ≠ (names.filter fun n => (wq.getD s.weights).any fun p => p.1 == n).length :=
+    fun h => by omega
+  simp [hne]
+
+/-- a cost model the service returns answers on every pair of state vectors as long as the state
+model, with strictly positive costs (§1) -/
+theorem service_build_returns (s : CostService α) (num : Json → Option α) (query : Json) (names : List String)
+    (m : CostModel α) (h : s.build num query names = .ok m) (e pe ne : Nat) (prev next : List α)
+    (h1 : names.length ≤ prev.length) (h2 : names.length ≤ next.length) :
+    (m.traversalCost e prev next).isSome ∧ (m.accessCost pe ne prev next).isSome
+      ∧ (m.costEstimate prev next).isSome ∧ m.weights.sum ≠ 0 := by
+  unfold CostService.build at h
+  cases hw : optField (parseMap num) query "weights" with
+  | none => simp [hw] at h
+  | some wq =>
+    simp only [hw] at h
+    split at h
+    · cases h
+    · cases hv : optField (parseMap (parseVehicleRate num)) query "vehicle_rates" with
+      | none => simp [hv] at h
+      | some vq =>
+        simp only [hv] at h
+        cases ha : optField parseAggregation query "cost_aggregation" with
+        | none => simp [ha] at h
+        | some aq =>
+          simp only [ha] at h
+          split at h
+          · cases h
+          · rename_i m' hm'
+            simp only [Except.ok.injEq] at h
+            subst h
+            have := new_returns _ _ m' hm' e pe ne prev next (by simpa using h1) (by simpa using h2)
+            exact this
+
+/-! ### 15. `NetworkCostRateBuilder::build` -/
+
+theorem decodeRows_map_ok {ρ : Type} (rows : List ρ) : decodeRows (rows.map Row.ok) = .ok rows := by
+  induction rows with
+  | nil => rfl
+  | cons x xs ih => simp [decodeRows, ih]
+
+theorem collectTable_subset {κ : Type} [BEq κ] (rows : List (κ × α)) :
+    ∀ p ∈ collectTable rows, p ∈ rows := by
+  unfold collectTable
+  have key : ∀ (l acc : List (κ × α)), ∀ p ∈ l.foldl (fun acc r =>
+      if acc.any (fun p => p.1 == r.1) then acc.map (fun p => if p.1 == r.1 then r else p) else acc ++ [r]) acc,
+      p ∈ acc ∨ p ∈ l := by
+    intro l
+    induction l with
+    | nil => intro acc p hp; exact Or.inl hp
+    | cons r rest ih =>
+      intro acc p hp
+      rw [List.foldl_cons] at hp
+      rcases ih _ p hp with h | h
+      · split at h
+        · rw [List.mem_map] at h
+          obtain ⟨q, hq, rfl⟩ := h
+          split
+          · exact Or.inr (by simp)
+          · exact Or.inl hq
+        · rcases List.mem_append.mp h with h | h
+          · exact Or.inl h
+          · exact Or.inr (by simp at h; simp [h])
+      · exact Or.inr (by simp [h])
+  intro p hp
+  rcases key rows [] p hp with h | h
+  · simp at h
+  · exact h
+
+/-- a lookup builder returns a rate exactly when its file can be read, every row decodes and every
+cost is finite; the table then holds rows of the file only — so every surcharge it can add is a
+finite number (C07 "finite", for the one place where a non-finite number could enter from a file) -/
+theorem lookup_builder_build (finite : α → Bool) (f : CsvFile (Nat × α)) :
+    (∀ r, (NetworkCostRateBuilder.edgeLookup f).build finite = some r →
+      ∃ rows, f.present = true ∧ f.rows = rows.map Row.ok ∧ r = .edgeLookup (collectTable rows)
+        ∧ ∀ p ∈ collectTable rows, finite p.2 = true) ∧
+    (∀ rows, f.present = true → f.rows = rows.map Row.ok → (∀ p ∈ rows, finite p.2 = true) →
+      (NetworkCostRateBuilder.edgeLookup f).build finite = some (.edgeLookup (collectTable rows))) := by
+  constructor
+  · intro r h
+    simp only [NetworkCostRateBuilder.build, readCsv] at h
+    by_cases hp : f.present = false
+    · simp [hp] at h
+    · rw [if_neg hp] at h
+      cases hd : decodeRows f.rows with
+      | error e => simp [hd] at h
+      | ok rows =>
+        simp only [hd] at h
+        split at h
+        · rename_i hall
+          simp only [Option.some.injEq] at h
+          refine ⟨rows, by simpa using hp, decodeRows_eq_ok _ _ hd, h.symm, ?_⟩
+          intro p hp'
+          exact List.all_eq_true.mp hall p (collectTable_subset rows p hp')
+        · cases h
+  · intro rows hp hr hf
+    have hd : decodeRows (rows.map Row.ok) = .ok rows := decodeRows_map_ok rows
+    have hall : rows.all (fun r => finite r.2) = true := List.all_eq_true.mpr hf
+    simp [NetworkCostRateBuilder.build, readCsv, hp, hr, hd, hall]
+
+/-- the same for the edge-pair builder -/
+theorem pair_lookup_builder_build (finite : α → Bool) (f : CsvFile ((Nat × Nat) × α)) :
+    (∀ r, (NetworkCostRateBuilder.edgeEdgeLookup f).build finite = some r →
+      ∃ rows, f.present = true ∧ f.rows = rows.map Row.ok ∧ r = .edgeEdgeLookup (collectTable rows)
+        ∧ ∀ p ∈ collectTable rows, finite p.2 = true) ∧
+    (∀ rows, f.present = true → f.rows = rows.map Row.ok → (∀ p ∈ rows, finite p.2 = true) →
+      (NetworkCostRateBuilder.edgeEdgeLookup f).build finite = some (.edgeEdgeLookup (collectTable rows))) := by
+  constructor
+  · intro r h
+    simp only [NetworkCostRateBuilder.build, readCsv] at h
+    by_cases hp : f.present = false
+    · simp [hp] at h
+    · rw [if_neg hp] at h
+      cases hd : decodeRows f.rows with
+      | error e => simp [hd] at h
+      | ok rows =>
+        simp only [hd] at h
+        split at h
+        · rename_i hall
+          simp only [Option.some.injEq] at h
+          refine ⟨rows, by simpa using hp, decodeRows_eq_ok _ _ hd, h.symm, ?_⟩
+          intro p hp'
+          exact List.all_eq_true.mp hall p (collectTable_subset rows p hp')
+        · cases h
+  · intro rows hp hr hf
+    have hd : decodeRows (rows.map Row.ok) = .ok rows := decodeRows_map_ok rows
+    have hall : rows.all (fun r => finite r.2) = true := List.all_eq_true.mpr hf
+    simp [NetworkCostRateBuilder.build, readCsv, hp, hr, hd, hall]
+
+/-- a combined builder builds every part, in order, and fails when one of them fails -/
+theorem combined_builder_build (finite : α → Bool) (bs : List (NetworkCostRateBuilder α)) :
+    (NetworkCostRateBuilder.combined bs).build finite
+      = (allSome (bs.map fun b => b.build finite)).map .combined := by
+  have key : ∀ l : List (NetworkCostRateBuilder α),
+      NetworkCostRateBuilder.buildList finite l = allSome (l.map fun b => b.build finite) := by
+    intro l
+    induction l with
+    | nil => simp [NetworkCostRateBuilder.buildList, allSome]
+    | cons b r ih =>
+      cases hb : b.build finite with
+      | none => simp [NetworkCostRateBuilder.buildList, allSome, hb]
+      | some x =>
+        cases hr : NetworkCostRateBuilder.buildList finite r with
+        | none => simp [NetworkCostRateBuilder.buildList, allSome, hb, hr, ← ih]
+        | some l' => simp [NetworkCostRateBuilder.buildList, allSome, hb, hr, ← ih]
+  simp [NetworkCostRateBuilder.build, key]
+
+theorem find_map_replace_key (acc : List (Nat × α)) (r : Nat × α) (k : Nat) :
+    (acc.map (fun p => if p.1 == r.1 then r else p)).find? (fun p => p.1 == k)
+      = if r.1 = k then (if acc.any (fun p => p.1 == r.1) then some r else none)
+        else acc.find? (fun p => p.1 == k) := by
+  induction acc with
+  | nil => simp
+  | cons q rest ih =>
+    simp only [List.map_cons, List.find?_cons, List.any_cons]
+    simp only [beq_eq_decide] at ih ⊢
+    by_cases hq : q.1 = r.1 <;> by_cases hk : r.1 = k <;> by_cases hqk : q.1 = k <;> simp_all
+    have hne : ¬ q.1 = r.1 := fun h => hqk (h.trans hk)
+    rw [decide_eq_false hne, Bool.false_or]
+
+/-- one row more: the new row answers for its own key, every other key is answered as before -/
+theorem lookup1_collect_step (acc : List (Nat × α)) (r : Nat × α) (k : Nat) :
+    lookup1 (if acc.any (fun p => p.1 == r.1) then acc.map (fun p => if p.1 == r.1 then r else p) else acc ++ [r]) k
+      = if r.1 = k then r.2 else lookup1 acc k := by
+  unfold lookup1
+  by_cases ha : acc.any (fun p => p.1 == r.1) = true
+  · rw [if_pos ha, find_map_replace_key]
+    by_cases hk : r.1 = k
+    · rw [if_pos hk, if_pos hk, if_pos ha]
+    · rw [if_neg hk, if_neg hk]
+  · rw [if_neg ha, List.find?_append]
+    by_cases hk : r.1 = k
+    · have hn : acc.find? (fun p => p.1 == k) = none := by
+        rw [List.find?_eq_none]
+        intro p hp hpk
+        apply ha
+        exact List.any_eq_true.mpr ⟨p, hp, by rw [hk]; exact hpk⟩
+      simp [hn, hk]
+    · cases acc.find? (fun p => p.1 == k) <;> simp [hk]
+
+/-- a key that occurs in several rows of a lookup file is charged the cost of its LAST row (the rows
+are collected into a `HashMap`); a key without row costs nothing -/
+theorem lookup_builder_last_row_wins (rows : List (Nat × α)) (k : Nat) :
+    lookup1 (collectTable rows) k
+      = match rows.reverse.find? (fun p => p.1 == k) with
+        | some p => p.2
+        | none => 0 := by
+  have key : ∀ (l acc : List (Nat × α)),
+      lookup1 (l.foldl (fun acc r =>
+        if acc.any (fun p => p.1 == r.1) then acc.map (fun p => if p.1 == r.1 then r else p) else acc ++ [r]) acc) k
+      = match l.reverse.find? (fun p => p.1 == k) with
+        | some p => p.2
+        | none => lookup1 acc k := by
+    intro l
+    induction l with
+    | nil => intro acc; simp
+    | cons r rest ih =>
+      intro acc
+      rw [List.foldl_cons, ih, lookup1_collect_step, List.reverse_cons, List.find?_append]
+      cases rest.reverse.find? (fun p => p.1 == k) with
+      | some p => simp
+      | none =>
+        by_cases hk : r.1 = k
+        · simp [hk]
+        · simp [hk]
+  have := key rows []
+  unfold collectTable
+  rw [this]
+  simp [lookup1]
+
+end
+
+/-! ### 16. Witnesses of the findings and non-vacuity of §9–§15 (kernel-evaluated on `ℚ`) -/
+
+/-- numbers of the examples: the JSON number's second component read as a natural number -/
+def numQ : Json → Option ℚ
+  | .num _ b => some (b : ℚ)
+  | _ => none
+def encQ : ℚ → Json := fun _ => .null
+def errOf {β : Type} : Except ServiceErr β → Option ServiceErr
+  | .error e => some e
+  | .ok _ => none
+
+def exTwo : CostModel ℚ :=
+  { indices := [0, 1], weights := [1, 1], vehicleRates := [.raw, .raw], networkRates := [.zero, .zero], agg := .sum }
+
+/-- finding `serialize_cost/feature-named-total_cost-lost`: with features `distance`, `total_cost` and
+state `[1, 5]` the report is `{distance: 1, total_cost: 6}` — the feature's own cost `5` is gone -/
+theorem serialize_cost_total_cost_counterexample :
+    exTwo.serializeCost ["distance", "total_cost"] [1, 5] = some [("distance", 1), ("total_cost", 6)] := by
+  decide +kernel
+
+/-- finding `cost_rate_serde/not-serializable` (a panic before 4844235): a cost model `CostModel::new`
+accepts — one feature rated by a `Combined` rate — has no `serialize_cost_info` -/
+theorem serialize_cost_info_counterexample :
+    ((CostModel.new [((some 1 : Option ℚ), some (.combined [.factor 2, .offset 1]), none)] .sum).map
+      fun m => (m.serializeCostInfo encQ ["time"]).isNone) = some true := by
+  decide +kernel
+
+-- §9: the order on concrete costs
+example : costCmp (1 : ℚ) 2 = .lt ∧ costCmp (2 : ℚ) 2 = .eq ∧ reverseCostCmp (1 : ℚ) 2 = .gt
+    ∧ costMax (1 : ℚ) 2 = 2 ∧ costMin (1 : ℚ) 2 = 1 := by decide +kernel
+-- §10: the second item is the first error; no component costs nothing under either aggregation
+example : CostAggregation.mul.aggIter [some (2 : ℚ), none, none] = none
+    ∧ firstNone [some (2 : ℚ), none, none] = some 1
+    ∧ CostAggregation.mul.aggIter ([] : List (Option ℚ)) = some 0
+    ∧ CostAggregation.sum.aggIter [some (2 : ℚ), some (-3)] = some (-1)
+    ∧ CostAggregation.mul.aggIter [some (-2 : ℚ), some (-3)] = some 6 := by decide +kernel
+-- §11: a record, and the error arms
+def exEnv : ETEnv ℚ :=
+  { edge := fun e => if e < 3 then some (e, e + 1) else if e = 3 then some (3, 9) else none,
+    vertex := fun v => decide (v < 4), access := some [1, 0], traverse := some [2, 7] }
+example : (exSum.edgeTraversalE exEnv true 1 (some 0) [1, 0]).toOption.map edgeRecordTotal
+    = exSum.traversalCost 1 [1, 0] [2, 7] := by decide +kernel
+example : (exSum.edgeTraversalE exEnv true 7 none [1, 0]).toOption = none
+    ∧ (exSum.edgeTraversalE exEnv true 3 none [1, 0]).toOption = none
+    ∧ (exSum.edgeTraversalE exEnv false 1 (some 7) [1, 0]).toOption = none
+    ∧ (exSum.edgeTraversalE { exEnv with access := none } true 1 (some 0) [1, 0]).toOption = none
+    ∧ (exSum.edgeTraversalE { exEnv with traverse := some [2] } true 1 none [1, 0]).toOption = none := by
+  decide +kernel
+-- §12: the report of a model whose rates all have a serde form
+example : exTwo.serializeCost ["distance", "time"] [1, 5] = some [("distance", 1), ("time", 5), ("total_cost", 6)] := by
+  decide +kernel
+example : (exTwo.serializeCostInfo encQ ["distance", "time"]).isSome = true
+    ∧ exTwo.serializeCost ["distance", "time"] [1] = none := by decide +kernel
+-- §13: both serde forms; the rate read from `["combined", {"type":"factor","factor":2}, ["offset", 1]]` maps 3 to 7
+example : ((parseVehicleRate numQ (.arr [.str "combined", .obj [("type", .str "factor"), ("factor", .num "2" 2)],
+      .arr [.str "offset", .num "1" 1]])).map fun r => r.mapValue 3) = some 7 := by decide +kernel
+example : (parseVehicleRate numQ (.obj [("type", .str "combined"), ("mappings", .arr [])])).isNone = true
+    ∧ (parseVehicleRate numQ (.obj [("type", .str "factor"), ("factor", .str "2")])).isNone = true
+    ∧ (parseNetworkRate (α := ℚ) (.obj [("type", .str "edge_lookup"), ("lookup", .obj [("3", .num "1" 1)])])).isNone = true
+    ∧ (parseNetworkRate (α := ℚ) (.obj [("type", .str "edge_lookup"), ("lookup", .obj [])])).isSome = true
+    ∧ parseAggregation (.obj [("mul", .null)]) = some .mul ∧ parseAggregation (.str "Sum") = none := by
+  decide +kernel
+-- §14: a configuration and a query; the ignore flag; weights that sum to zero
+def exConfig : Json :=
+  .obj [("vehicle_rates", .obj [("distance", .obj [("type", .str "raw")])]),
+        ("weights", .obj [("distance", .num "2" 2)]),
+        ("ignore_unknown_user_provided_weights", .bool false)]
+example : ((buildCostService numQ exConfig).map fun s =>
+      ((s.build numQ (.obj []) ["distance", "time"]).toOption.bind fun m => m.traversalCost 0 [0, 0] [3, 4]))
+    = some (some 6) := by decide +kernel
+example : ((buildCostService numQ exConfig).map fun s =>
+      (errOf (s.build numQ (.obj [("weights", .obj [("distance", .num "1" 1), ("toll", .num "1" 1)])]) ["distance", "time"]),
+       errOf (s.build numQ (.obj [("weights", .obj [("distance", .num "0" 0)])]) ["distance", "time"]),
+       errOf (s.build numQ (.obj [("weights", .str "distance")]) ["distance", "time"])))
+    = some (some .unknownWeights, some .newFailed, some .serde) := by decide +kernel
+-- §15: two rows for edge 3, the last one counts; a missing file, an undecodable row, a non-finite cost fail
+example : ((NetworkCostRateBuilder.edgeLookup (CsvFile.mk true 4 [.ok (3, (1 : ℚ)), .ok (5, 2), .ok (3, 7)])).build
+      (fun _ => true)).map
+      (fun r => (r.traversalCost 3, r.traversalCost 5, r.traversalCost 4)) = some (7, 2, 0) := by decide +kernel
+example : ((NetworkCostRateBuilder.edgeLookup (CsvFile.mk false 0 ([] : List (Row (Nat × ℚ))))).build
+      (fun _ => true)).isNone = true
+    ∧ ((NetworkCostRateBuilder.edgeLookup (CsvFile.mk true 2 [.ok (3, (1 : ℚ)), .bad])).build
+      (fun _ => true)).isNone = true
+    ∧ ((NetworkCostRateBuilder.edgeLookup (CsvFile.mk true 2 [.ok (3, (1 : ℚ))])).build
+      (fun x => decide (x ≠ 1))).isNone = true := by decide +kernel
 
 end C07
 end Compass
